@@ -15,6 +15,8 @@
        replaced): an OAuth2 session id keeps its resource server in every history.
      * the account validity window test at the top of check_oauth2_account_uuid_valid (accounts in
        the histories carry no valid_from / expire).
+   check_oauth2_account_uuid_valid is transcribed as of /repo commit 8607e8e (sessions past their
+   expiry are refused like revoked ones).
    All times are nanoseconds relative to a harness constant; a RevokedAt(cid) is represented by the
    index k of the write transaction (step) whose change id is cid. *)
 From Coq Require Import List NArith Bool.
@@ -216,16 +218,20 @@ Fixpoint run (k : N) (a : acct) (h : list (N * list md)) : acct :=
   end.
 
 (* ------------------------------------------------------------------ check_oauth2_account_uuid_valid *)
+(* the `session_is_live` closure (fix 8607e8e): RevokedAt => false, ExpiresAt(exp) => exp > ct,
+   NeverExpires => true *)
+Definition live_at (ct : N) (s : sstate) : bool := live s && negb (expired ct s).
+
 (* true = Ok(Some(entry)), false = Ok(None). iat is the token's issue time (whole seconds, here in ns). *)
 Definition check (a : acct) (oid : N) (parent : option N) (iat ct : N) : bool :=
   let grace_valid := ct <? iat + GRACE in
   match lookup oid (a_o2s a) with
   | Some o =>
-      if negb (live (o_state o)) then false
+      if negb (live_at ct (o_state o)) then false
       else match parent with
            | Some p =>
                match lookup p (a_uats a) with
-               | Some u => live (u_state u)
+               | Some u => live_at ct (u_state u)
                | None => if memN p (a_apis a) then true else grace_valid
                end
            | None => true
@@ -331,16 +337,17 @@ Definition p_orphans (ct : N) (cur : acct) : bool :=
         && negb (expired ct (o_state o)))) (a_o2s cur).
 
 (* (d) a token whose grace window has passed is accepted only when its OAuth2 session record is
-   live and its parent (if it names one) is a live login session or an API token of the account *)
+   neither revoked nor past its expiry at that time, and its parent (if it names one) is a login
+   session that is neither revoked nor past its expiry, or an API token of the account *)
 Definition p_chk (cur : acct) (c : chk) : bool :=
   if c_res c && (c_iat c + GRACE <=? c_ct c) then
     match lookup (c_oid c) (a_o2s cur) with
-    | Some o => live (o_state o)
+    | Some o => live_at (c_ct c) (o_state o)
     | None => false
     end
     && match c_parent c with
        | Some p => match lookup p (a_uats cur) with
-                   | Some u => live (u_state u)
+                   | Some u => live_at (c_ct c) (u_state u)
                    | None => memN p (a_apis cur)
                    end
        | None => true
